@@ -278,6 +278,10 @@ def explore(d, env=None, lang="yaql", form=0, tok="task", rng=None, inputs=None)
                 c = r.clone()
                 c.rerun(req)
                 tree.add(node, c.steps[-1], ["probe_rerun", req])
+        if len(r.c.workflow_state.sequence) > env.get("max_records", 250) or len(r.acts) > 96:
+            # splits inside cycles multiply the executions without bound: such a history is cut (counted as truncated)
+            tree.truncated = True
+            continue
         chs = choices(r, bud, env)
         if not chs:
             tree.leaves += 1
